@@ -237,6 +237,8 @@ def kernel_part(chk: Check, drv: Driver):
             fs = problems.fmt_dict_str(fmts)
             reqs.append("PEEPM " + sx(export(m0)))
             meta.append(("peep", text, fs, sx(export(m1)), None))
+            reqs.append("CERT nofloatid " + sx(export(m0)))
+            meta.append(("cert", text, fs, None, None))
             # run evaluate before/after on two random inputs
             sizes = problems.index_sizes(a, rng, choices=(0, 1, 2, 3))
             part = a.index_participants()
@@ -273,6 +275,14 @@ def kernel_part(chk: Check, drv: Driver):
                 chk.unproved_obligation("correspondence:peephole(kernel)", "python and lean optimisers disagree on a generated kernel",
                                         {"assignment": text, "formats": fs, "python": want[:500], "lean": got[:500]})
             chk.case(("kernel", text, json.dumps(fs, sort_keys=True)), sample={"kind": "kernel", "assignment": text, "formats": fs})
+        elif kind == "cert":
+            r = replies[ri]
+            ri += 1
+            if isinstance(r, list) and all(x in ("true", "false") for x in r):
+                for x in r:
+                    chk.count("kernel_fn_certified_stable" if x == "true" else "kernel_fn_not_certified")
+            else:
+                chk.unproved_obligation("correspondence:ir-reader", "CERT request failed", {"assignment": text, "formats": fs})
         else:
             r0, r1 = replies[ri], replies[ri + 1]
             ri += 2
